@@ -104,6 +104,63 @@ type projector struct {
 	src    *Src
 	chains *interner
 	urls   *interner
+	// the word at the end of the last text node of each category that did not end in white space: it continues
+	// in the next text node of that category unless a box of its own (a non-inline element, a line break) intervenes
+	pend map[string]*pendingWord
+}
+
+type pendingWord struct {
+	s    string
+	emit func(string)
+}
+
+// lineTags: elements that do not break the line. A word continues across them: H<sub>2</sub>O is one word to every
+// reader of the page. Pictures, frames and other replaced elements are not in the list: a picture between two
+// words keeps them apart for a reader, and the generator never writes text tight against one.
+var lineTags = map[string]bool{"a": true, "abbr": true, "acronym": true, "b": true, "bdi": true, "bdo": true, "big": true,
+	"cite": true, "code": true, "data": true, "del": true, "dfn": true, "em": true, "font": true, "i": true,
+	"ins": true, "kbd": true, "label": true, "mark": true, "q": true, "s": true, "samp": true, "small": true,
+	"span": true, "strike": true, "strong": true, "sub": true, "sup": true, "time": true, "tt": true, "u": true,
+	"var": true, "wbr": true, "nobr": true}
+
+func isSpaceByte(c byte) bool { return c == ' ' || c == '\t' || c == '\n' || c == '\r' || c == '\f' }
+
+// text hands the data of one text node of category cat to emit, word by word as a reader joins them.
+func (p *projector) text(cat, data string, emit func(string)) {
+	if data == "" {
+		return
+	}
+	if p.pend == nil {
+		p.pend = map[string]*pendingWord{}
+	}
+	if pw := p.pend[cat]; pw != nil {
+		delete(p.pend, cat)
+		if isSpaceByte(data[0]) {
+			pw.emit(pw.s)
+		} else {
+			data = pw.s + data
+		}
+	}
+	if !isSpaceByte(data[len(data)-1]) {
+		i := len(data)
+		for i > 0 && !isSpaceByte(data[i-1]) {
+			i--
+		}
+		emit(data[:i])
+		p.pend[cat] = &pendingWord{s: data[i:], emit: emit}
+		return
+	}
+	emit(data)
+}
+
+// lineBreak: a box of its own or a line break ends every pending word.
+func (p *projector) lineBreak() {
+	for _, cat := range []string{"ph", "phhid", "hid", "vis"} {
+		if pw := p.pend[cat]; pw != nil {
+			delete(p.pend, cat)
+			pw.emit(pw.s)
+		}
+	}
 }
 
 // appendWords appends the words of s to runs, extending the last run when the next
@@ -128,6 +185,9 @@ func (p *projector) words(s string) []int {
 			out = append(out, n)
 		} else if p.src != nil && p.src.raw[f] {
 			continue
+		} else if p.src != nil && p.src.glued[f] {
+			// a word made of several source words that the SOURCE already shows as one (zq1<b>zq2</b>)
+			out = append(out, tokensOf(f)...)
 		} else {
 			out = append(out, 0)
 		}
@@ -167,22 +227,31 @@ func (p *projector) walk(n *html.Node, chain string, inPh, hid, inTbl bool) {
 		}
 		return
 	case html.TextNode:
+		c := p.chains.id(chain)
 		switch {
 		case inPh && hid:
-			p.obs.Ph = p.appendWords(p.obs.Ph, n.Data)
+			p.text("phhid", n.Data, func(s string) { p.obs.Ph = p.appendWords(p.obs.Ph, s) })
 		case inPh:
-			p.obs.Ph = p.appendWords(p.obs.Ph, n.Data)
-			p.obs.Phc = p.appendHWords(p.obs.Phc, n.Data, p.chains.id(chain), inTbl)
-			p.obs.Vis = p.appendWords(p.obs.Vis, n.Data)
+			p.text("ph", n.Data, func(s string) {
+				p.obs.Ph = p.appendWords(p.obs.Ph, s)
+				p.obs.Phc = p.appendHWords(p.obs.Phc, s, c, inTbl)
+				p.obs.Vis = p.appendWords(p.obs.Vis, s)
+			})
 		case hid:
-			p.obs.Hid = p.appendWords(p.obs.Hid, n.Data)
+			p.text("hid", n.Data, func(s string) { p.obs.Hid = p.appendWords(p.obs.Hid, s) })
 		default:
-			p.obs.Htm = p.appendHWords(p.obs.Htm, n.Data, p.chains.id(chain), inTbl)
-			p.obs.Vnp = p.appendWords(p.obs.Vnp, n.Data)
-			p.obs.Vis = p.appendWords(p.obs.Vis, n.Data)
+			p.text("vis", n.Data, func(s string) {
+				p.obs.Htm = p.appendHWords(p.obs.Htm, s, c, inTbl)
+				p.obs.Vnp = p.appendWords(p.obs.Vnp, s)
+				p.obs.Vis = p.appendWords(p.obs.Vis, s)
+			})
 		}
 		return
 	case html.ElementNode:
+		if !lineTags[n.Data] {
+			p.lineBreak()
+			defer p.lineBreak()
+		}
 		if isPlaceholder(n) {
 			inPh = true
 		}
@@ -416,6 +485,7 @@ func project(res *distiller.Result, err error, src *Src, chains, urls *interner)
 	o.WC = res.WordCount
 	o.NTitle = len(res.Title)
 	p.walk(res.Node, "", false, false, false)
+	p.lineBreak()
 	p.census(res.Node)
 	p.media(res.Node, src)
 	for _, u := range res.ContentImages {
